@@ -1,6 +1,8 @@
-(* C17, thorough tier only: the exhaustive small-scope check of Props.v one level deeper (338117 histories). *)
+(* C17: the deeper exhaustive checks, compiled by the thorough tier only. *)
 From Coq Require Import NArith List Bool.
 From OG Require Import C17.Model C17.Corr C17.Scope.
 Open Scope N_scope.
-Example C17_refines_small_scope_5 : explore VRepaired tiny_params 5 (empty_disk tiny_params) empty_alog = true.
+Example C17_refines_small_scope_5 : explore VZeroSlots tiny_params 5 (empty_disk tiny_params) empty_alog = true.
+Proof. vm_compute. reflexivity. Qed.
+Example C17_faults_small_scope_3 : explore_f VZeroSlots tiny_params 3 (empty_disk tiny_params) empty_alog = true.
 Proof. vm_compute. reflexivity. Qed.
